@@ -18,7 +18,7 @@ CONFIG = {
     "level": "exploration",
     "shards": {"quick": 16, "thorough": 16},
     "timeout_s": {"quick": 900, "thorough": 5400},
-    "rule": "case = generated program whose (possibly wrapped) root is a static function + trace (simulate/importance/update) + get_subtrace at every traced address incl. tuple addresses and two-level chains; compared: subtrace choices vs parent's submap, subtrace score (summed over stacked axes) vs the reference model's contribution of that call. non-trivial: the addressed callee is itself a combinator or nested static function, or the root is wrapped in a vector combinator; distinct by (AST shape, wrapper path, address kind).",
+    "rule": "case = generated program whose (possibly wrapped) root is a static function + trace (simulate/importance/update/IndexRequest edit on vector roots) + get_subtrace at every traced address incl. tuple addresses and two-level chains; compared: subtrace choices vs parent's submap, subtrace score (summed over stacked axes) vs the reference model's contribution of that call. non-trivial: the addressed callee is itself a combinator or nested static function, or the root is wrapped in a vector combinator; distinct by (AST shape, wrapper path, address kind).",
     "reach_anchors": [f"{G}.static:StaticTrace.get_inner_trace", f"{G}.combinators.vmap:VmapTrace.get_inner_trace", f"{G}.combinators.scan:ScanTrace.get_inner_trace", f"{G}.combinators.switch:SwitchTrace.get_inner_trace", f"{G}.combinators.dimap:DimapTrace.get_inner_trace", f"{G}.combinators.mask:MaskTrace.get_inner_trace"],
     "reach_required": [f"{G}.static:StaticTrace.get_inner_trace", f"{G}.combinators.vmap:VmapTrace.get_inner_trace", f"{G}.combinators.scan:ScanTrace.get_inner_trace", f"{G}.combinators.dimap:DimapTrace.get_inner_trace"],
     "counters_required": ["subtrace_checks"],
@@ -158,7 +158,7 @@ def nontrivial(case, hist):
 PLAN = _drive.Plan(
     "C34", cfg_fn,
     clauses={"subtrace.*"},
-    ops={"subtrace": 3, "update": 1},
+    ops={"subtrace": 3, "update": 1, "index_edit": 1.5},
     extra_ops={"subtrace": h_subtrace},
     n_cases=(400, 3000), n_ops=(2, 4), nontrivial=nontrivial,
     always=(),
